@@ -291,14 +291,32 @@ func feedIndexer(k *kind, ix parquet.ColumnIndexer, pages []idxPage) {
 
 // runIndexer replays the whole history of a case on one ColumnIndexer.
 func runIndexer(k *kind, cs *idxCase) format.ColumnIndex {
+	ci, _ := runIndexerKeeping(k, cs)
+	return ci
+}
+
+// runIndexerKeeping also keeps the column indexes handed out along the history
+// (the writer keeps the index of every finished row group until Close while the
+// indexer is Reset and indexes the next one): changed tells which of them no
+// longer reads as it did when it was handed out.
+func runIndexerKeeping(k *kind, cs *idxCase) (ci format.ColumnIndex, changed string) {
 	ix := k.Typ.NewColumnIndexer(cs.Limit)
+	var kept []format.ColumnIndex
+	var was []string
 	for _, prior := range cs.Prior {
 		feedIndexer(k, ix, prior)
-		_ = ix.ColumnIndex()
+		kept = append(kept, ix.ColumnIndex())
+		was = append(was, canonIndex(k, &kept[len(kept)-1]))
 		ix.Reset()
 	}
 	feedIndexer(k, ix, cs.Pages)
-	return ix.ColumnIndex()
+	ci = ix.ColumnIndex()
+	for h := range kept {
+		if now := canonIndex(k, &kept[h]); now != was[h] && changed == "" {
+			changed = fmt.Sprintf("the column index of list %d of the history was %s when ColumnIndex returned it and reads %s after Reset and %d later pages", h, was[h], now, len(cs.Pages))
+		}
+	}
+	return ci, changed
 }
 
 func idxRequest(k *kind, cs *idxCase) string {
@@ -394,18 +412,22 @@ func idxCheck(c *core.Ctx, cs *idxCase) bool {
 	k := kindByName[cs.Kind]
 	ok := true
 	var ci format.ColumnIndex
-	panicked := ""
+	panicked, changed := "", ""
 	func() {
 		defer func() {
 			if r := recover(); r != nil {
 				panicked = fmt.Sprint(r)
 			}
 		}()
-		ci = runIndexer(k, cs)
+		ci, changed = runIndexerKeeping(k, cs)
 	}()
 	if panicked != "" {
 		c.Violation("indexer-panic", fmt.Sprintf("%s ColumnIndexer panicked: %s", k.Name, panicked), cs)
 		return false
+	}
+	if changed != "" {
+		c.Violation("index-not-kept", fmt.Sprintf("%s indexer (limit %d): %s", k.Name, cs.Limit, changed), cs)
+		ok = false
 	}
 	n := len(cs.Pages)
 	if len(ci.NullPages) != n || len(ci.NullCounts) != n || len(ci.MinValues) != n || len(ci.MaxValues) != n {
@@ -1095,6 +1117,12 @@ type fcase struct {
 	// are wrapped in an inner MultiRowGroup first.
 	Multi     []int `json:"multi_pick,omitempty"`
 	MultiNest int   `json:"multi_nest,omitempty"`
+	// Project (with Via): every source row group is handed to WriteRowGroup behind
+	// parquet.ConvertRowGroup to the schema made of these columns of Cols (the
+	// writer has that schema). A converted row group may only declare the
+	// sorting columns that precede the first one its schema lacks: that is all
+	// its rows are known to be sorted by.
+	Project []int `json:"convert_to,omitempty"`
 }
 
 // skey: one sorting column of a source row group.
@@ -1120,7 +1148,11 @@ func (fc *fcase) writerSortExpect() sortExpect {
 
 func colName(i int) string { return fmt.Sprintf("c%02d", i) }
 
-func (fc *fcase) schema() (s *parquet.Schema, err string) {
+func (fc *fcase) schema() (s *parquet.Schema, err string) { return fc.schemaOf(nil) }
+
+// schemaOf: the schema made of the columns only (all of them when only is nil),
+// under the names they have in the schema of the case.
+func (fc *fcase) schemaOf(only []int) (s *parquet.Schema, err string) {
 	defer func() {
 		if r := recover(); r != nil {
 			err = fmt.Sprint(r)
@@ -1128,6 +1160,9 @@ func (fc *fcase) schema() (s *parquet.Schema, err string) {
 	}()
 	g := parquet.Group{}
 	for i, col := range fc.Cols {
+		if only != nil && !slices.Contains(only, i) {
+			continue
+		}
 		k := kindByName[col.Kind]
 		n := k.Node()
 		if col.Dict {
@@ -1920,6 +1955,7 @@ func fileShrink(c *core.Ctx, fc *fcase) *fcase {
 				t.SkipBounds = false
 			}
 			t.SkipCol = 0
+			t.Project = nil
 			t.Keys = nil
 			for _, key := range cur.Keys {
 				if key.Col == i {
@@ -2002,6 +2038,23 @@ func fileShrink(c *core.Ctx, fc *fcase) *fcase {
 			cur = t
 		} else {
 			i++
+		}
+	}
+	// the conversion on the way: not needed, or to fewer columns
+	if len(cur.Project) > 0 {
+		t := cur
+		t.Project = nil
+		if fails(&t) {
+			cur = t
+		}
+		for i := 0; i < len(cur.Project) && len(cur.Project) > 1; {
+			t := cur
+			t.Project = append(append([]int(nil), cur.Project[:i]...), cur.Project[i+1:]...)
+			if fails(&t) {
+				cur = t
+			} else {
+				i++
+			}
 		}
 	}
 	if cur.Via != "" && cur.Via != "buffer" {
@@ -2229,7 +2282,7 @@ func historySweep(c *core.Ctx) {
 // ---------------------------------------------------------------- run
 
 func runC05(c *core.Ctx) {
-	c.Res.Rule = "(a) ColumnIndexer of every physical/logical type fed generated page lists (ordered, reversed, constant and random bounds from a per-type domain with extremes, -0, +-Inf, NaN payloads, long 0xFF prefixes; null pages at every position; size limits -1..21), on new indexers and on indexers that indexed 1-2 earlier lists and were Reset (random histories plus a sweep of every kind over histories shorter, equal and longer than the list), ascending and descending lists of every kind whose length is around the multiples of the strides of the vectorised order kernels (56, 112, 240 pages for every kind; 55..57, 111..113, 239..241 for the six kinds that have their own kernel, 447..449 / 479..481 for one kernel of each stride; all of these for every kind in the thorough tier; new and reset indexers), plus every list of <= 4 pages over a 3-value domain for int32 / byte arrays and every byte string over {00,01,fe,ff} up to length 5 with limits 1..4; Type.Compare on all domain pairs; Bounds of in-memory pages, plain and dictionary indexed: random pages, byte-position sweeps, pages above 1 MiB, and every ordered pair of every domain (NaNs and both zeros included; for the kinds whose order has ties also the pair spread over a longer page), each followed by Search of every value of the page in the one-page index made of the page's own bounds. (b) files with generated schemas (1-4 columns, required / optional / repeated, plain / dictionary, data page v1 / v2, tiny page buffers, every ColumnIndexSizeLimit 1..20, with and without page statistics, sorting declared or not; row groups cut by MaxRowsPerRowGroup and by Flush; writers new or reused through Writer.Reset after a complete or an abandoned file; a sweep gives every kind, plain and dictionary, each of these histories), re-written through WriteRowGroup with identical settings. (b') the rows sorted in 1-4 parquet.Buffers that declare 0-2 sorting columns (every combination of descending / nulls first) and written through Writer.WriteRowGroup by a writer without (or, sometimes, with) a sorting configuration of its own, on every way in: the Buffers (column-wise re-encode), an application-defined RowGroup around them (row path), row groups of a source file written with the same settings (verbatim copy), with the other data page version (column-wise re-encode), behind an application-defined RowGroup, larger than MaxRowsPerRowGroup (cut on the way), and one MultiRowGroup over them (segments); the source file and the file written are checked like every other file, the sorting columns recorded for every row group must be the declaration (none or the declaration where row groups are cut or packed on the way) and must be true of the rows read back (null placement included). (b'') for every file of at least 2 row groups the column index of every column chunk of parquet.MultiRowGroup over the row groups in file order, reversed, and in a generated order (consecutive or random row groups, repetitions, an inner MultiRowGroup): page count, null counts, null pages and bounds against the values read back from the pages, IsAscending / IsDescending true of all pairs of non-null pages, Search of every value, and IsAscending / IsDescending against the model of isOrdered fed with what the chunks' own indexes say; a sweep gives every kind (required / optional / repeated, plain / dictionary) files whose row groups are ascending, descending, constant, random or null-only runs whose ranges are disjoint, touch, overlap partially or are nested. Every page header, chunk statistic, column index entry, histogram and boundary order of every row group is checked directly against the values read back and against the model. A case is one indexer call sequence, one page, or one column chunk; non-trivial = at least 2 pages / values; distinct by the canonical text of the case."
+	c.Res.Rule = "(a) ColumnIndexer of every physical/logical type fed generated page lists (ordered, reversed, constant and random bounds from a per-type domain with extremes, -0, +-Inf, NaN payloads, long 0xFF prefixes; null pages at every position; size limits -1..21), on new indexers and on indexers that indexed 1-2 earlier lists and were Reset (random histories plus a sweep of every kind over histories shorter, equal and longer than the list; the column indexes handed out along the history are kept, as the writer keeps those of finished row groups until Close, and must still read as they did once the indexer has gone on), ascending and descending lists of every kind whose length is around the multiples of the strides of the vectorised order kernels (56, 112, 240 pages for every kind; 55..57, 111..113, 239..241 for the six kinds that have their own kernel, 447..449 / 479..481 for one kernel of each stride; all of these for every kind in the thorough tier; new and reset indexers), plus every list of <= 4 pages over a 3-value domain for int32 / byte arrays and every byte string over {00,01,fe,ff} up to length 5 with limits 1..4; Type.Compare on all domain pairs; Bounds of in-memory pages, plain and dictionary indexed: random pages, byte-position sweeps, pages above 1 MiB, and every ordered pair of every domain (NaNs and both zeros included; for the kinds whose order has ties also the pair spread over a longer page), each followed by Search of every value of the page in the one-page index made of the page's own bounds. (b) files with generated schemas (1-4 columns, required / optional / repeated, plain / dictionary, data page v1 / v2, tiny page buffers, every ColumnIndexSizeLimit 1..20, with and without page statistics, sorting declared or not; row groups cut by MaxRowsPerRowGroup and by Flush; writers new or reused through Writer.Reset after a complete or an abandoned file; a sweep gives every kind, plain and dictionary, each of these histories), re-written through WriteRowGroup with identical settings. (b') the rows sorted in 1-4 parquet.Buffers that declare 0-3 sorting columns (every combination of descending / nulls first) and written through Writer.WriteRowGroup by a writer without (or, sometimes, with) a sorting configuration of its own, on every way in: the Buffers (column-wise re-encode), an application-defined RowGroup around them (row path), row groups of a source file written with the same settings (verbatim copy), with the other data page version (column-wise re-encode), behind an application-defined RowGroup, larger than MaxRowsPerRowGroup (cut on the way), and one MultiRowGroup over them (segments); the source file and the file written are checked like every other file, the sorting columns recorded for every row group must be the declaration (none or the declaration where row groups are cut or packed on the way) and must be true of the rows read back (null placement included). (b'+) the same ways in with a conversion on the way: every source row group behind parquet.ConvertRowGroup to a schema made of some of the columns (1-3 sorting columns over up to 4 columns whose values repeat; the target lacks the first, the second, the third sorting column, the first two, a column that is no sorting column, or nothing; random subsets in the random cases): the converted row group may declare only the sorting columns that precede the first one its schema lacks, what it declares must be true of the rows it yields, and the file written from it is checked like the others against the rows of the kept columns. (b'') for every file of at least 2 row groups the column index of every column chunk of parquet.MultiRowGroup over the row groups in file order, reversed, and in a generated order (consecutive or random row groups, repetitions, an inner MultiRowGroup): page count, null counts, null pages and bounds against the values read back from the pages, IsAscending / IsDescending true of all pairs of non-null pages, Search of every value, and IsAscending / IsDescending against the model of isOrdered fed with what the chunks' own indexes say; a sweep gives every kind (required / optional / repeated, plain / dictionary) files whose row groups are ascending, descending, constant, random or null-only runs whose ranges are disjoint, touch, overlap partially or are nested. Every page header, chunk statistic, column index entry, histogram and boundary order of every row group is checked directly against the values read back and against the model. A case is one indexer call sequence, one page, or one column chunk; non-trivial = at least 2 pages / values; distinct by the canonical text of the case."
 
 	var vmIdx, vmTrunc []string
 	addVmIdx := func(cs *idxCase) {
@@ -2419,6 +2472,7 @@ func runC05(c *core.Ctx) {
 	historySweep(c)
 	multiSweep(c)
 	transferSweep(c)
+	convertSweep(c)
 	for i := 0; i < nFiles; i++ {
 		fc := randFileCase(c, i)
 		fileRun(c, fc)
